@@ -1,4 +1,4 @@
-CONSTANTS NK = 5  NM = 2  MaxPasses = 1  Mode = "lim"  PruneNoop = TRUE
+CONSTANTS NK = 5  NM = 2  MaxPasses = 1  Mode = "lim"  PruneNoop = TRUE  WithPairs = TRUE
           Cases <- FlagCases  Shapes <- NoShapes  Coins <- AllCoins  HashTypes <- StdHashTypes
 SPECIFICATION RSpec
 CHECK_DEADLOCK FALSE
